@@ -108,6 +108,8 @@ func starArgs(w, p string) []interface{} {
 var fwdKinds = []interface{}{
 	true, int(-42), int8(7), int16(-300), int32(65), int64(1 << 40), uint(42), uint8(200), uint16(9), uint32(77), uint64(1 << 50), uintptr(4096),
 	float32(1.5), float64(-2.25), complex64(1 + 2i), complex128(-1.5 + 0.5i), "str\"q", []byte("by\x00"), nil,
+	// (not short decimals in binary: 32 and 64 bits print differently)
+	float32(0.1), complex64(0.1 + 0.7i), namedF32(0.3), []float32{0.1}, float64(0.1),
 	// values with formatting methods of their own, nil receivers (fmt prints <nil> when the method of a nil
 	// pointer operand panics), panicking methods, composites
 	strStringer("s"), errors.New("e"), &errT{"pe"}, valErr{"ve"}, goStr{"g"}, echoFormatter{"t"}, &echoFormatter{"p"},
